@@ -37,3 +37,20 @@ Definition ugc_forbidden_elements : list bytes :=
 Definition event_or_style_attr (k : bytes) : bool :=
   beqb k (B"style") || match k with 111 :: 110 :: _ => true | _ => false end.     (* style, on* *)
 Definition ugc_schemes : list bytes := [B"mailto"; B"http"; B"https"].
+
+(* documented valid values (my reading of the value spaces named in helpers.go / policies.go): an
+   attribute of the vocabulary carrying one of these must pass the attribute filter.  URL attributes
+   (href, cite, src) are judged by the URL gate, not by a pattern, and are not listed here. *)
+Definition ugc_value_samples : list (bytes * list bytes) :=
+  [ (B"align", [B"left"; B"center"; B"right"; B"justify"; B"char"]); (B"valign", [B"baseline"; B"bottom"; B"middle"; B"top"]);
+    (B"height", [B"10"; B"10%"]); (B"width", [B"10"; B"25%"]); (B"span", [B"2"]); (B"colspan", [B"2"]); (B"rowspan", [B"3"]);
+    (B"abbr", [B"some text"]); (B"headers", [B"h1 h2"]); (B"scope", [B"row"; B"colgroup"]); (B"nowrap", [B"nowrap"]); (B"summary", [B"a summary"]);
+    (B"datetime", [B"1997-07-16"; B"1997-07-16T19:20:30+01:00"]); (B"open", [B"open"]); (B"name", [B"m1"]); (B"alt", [B"some text"]);
+    (B"coords", [B"1,2,3"]); (B"shape", [B"rect"; B"circle"]); (B"usemap", [B"#m1"]);
+    (B"min", [B"0"]); (B"max", [B"1"]); (B"low", [B"0.2"]); (B"high", [B"0.8"]); (B"optimum", [B"0.5"]);
+    (B"dir", [B"rtl"; B"ltr"]); (B"lang", [B"en"]); (B"id", [B"a1"]); (B"title", [B"a title"]) ].
+Definition ugc_value_overrides : list (bytes * bytes * list bytes) :=
+  [ (B"img", B"align", [B"left"; B"top"; B"middle"; B"bottom"]); (B"ol", B"type", [B"a"; B"A"; B"i"; B"I"; B"1"]);
+    (B"ul", B"type", [B"disc"; B"circle"; B"square"]); (B"li", B"type", [B"a"; B"disc"; B"1"]);
+    (B"meter", B"value", [B"0.5"]); (B"progress", B"value", [B"1"]); (B"progress", B"max", [B"2"]); (B"li", B"value", [B"3"]) ].
+Definition ugc_url_attrs : list bytes := [B"href"; B"cite"; B"src"; B"rel"].
